@@ -282,7 +282,8 @@ class BaseAlgorithm(ABC):
         :param num_timesteps: current number of timesteps
         :param total_timesteps:
         """
-        self._current_progress_remaining = 1.0 - float(num_timesteps) / float(total_timesteps)
+        # The last rollout may overshoot total_timesteps: keep the progress in [0, 1]
+        self._current_progress_remaining = max(1.0 - float(num_timesteps) / float(total_timesteps), 0.0)
 
     def _update_learning_rate(self, optimizers: Union[list[th.optim.Optimizer], th.optim.Optimizer]) -> None:
         """
